@@ -134,7 +134,19 @@ def find_item(src, msk, kind, name):
         raise KeyError("%s %s not found" % (kind, name))
     s = m.start()
     b = msk.find("{", s)
-    semi = msk.find(";", s)
+    # the item's terminating ';' is the first one at bracket depth 0 (`[u8; 128]` contains one inside brackets)
+    semi, d = -1, 0
+    for i in range(s, len(msk)):
+        ch = msk[i]
+        if ch in "([":
+            d += 1
+        elif ch in ")]":
+            d -= 1
+        elif ch == "{" and d == 0 and kind != "const":
+            break
+        elif ch == ";" and d == 0:
+            semi = i
+            break
     if kind == "const" or (0 <= semi < b) or b < 0:
         return s, semi + 1
     return s, match_brace(msk, b) + 1
